@@ -353,6 +353,24 @@ def positions_case(rng, ctx, scn, K, mon, forced=None, flag_form=None):
         'Ltotal_scatter': scn.Ltotal(da, scatter=form(True)), 'Ltotal_noscatter': scn.Ltotal(da, scatter=form(False)),
         'incident_beam': scn.incident_beam(da), 'scattered_beam': scn.scattered_beam(da),
     }
+    # the single-purpose graph factories are a second public route to the same coordinates
+    from scippneutron.conversion.graph import beamline as GB
+    for k, fac in (('L1', GB.L1), ('L2', GB.L2), ('two_theta', GB.two_theta), ('incident_beam', GB.incident_beam),
+                   ('scattered_beam', GB.scattered_beam),
+                   ('Ltotal_scatter', lambda: GB.Ltotal(scatter=form(True))),
+                   ('Ltotal_noscatter', lambda: GB.Ltotal(scatter=form(False)))):
+        name = k.split('_')[0] if k.startswith('Ltotal') else k
+        try:
+            r = da.transform_coords(name, graph=fac()).coords[name]
+        except Exception as e:  # noqa: BLE001
+            ctx.violation('graph_factory_raised', f'transform_coords({name!r}, graph=graph.beamline.{k}()) on a '
+                          f'{container} raised {type(e).__name__}: {e}', dict(case, factory=k), factory=k)
+            continue
+        ctx.event('graph_factory.' + k)
+        if r.unit != got[k].unit or r.dims != got[k].dims or not np.array_equal(
+                np.asarray(r.values), np.asarray(got[k].values), equal_nan=True):
+            ctx.violation('graph_factory', f'graph.beamline.{k}() gives a different {name} than the accessor / the '
+                          'full beamline graph for the same positions', dict(case, factory=k), factory=k)
     for nm_, ref_ in (('position', pos), ('source_position', source), ('sample_position', sample)):
         g_ = getattr(scn, nm_)(da)
         ctx.event('accessor.' + nm_)
